@@ -453,7 +453,7 @@ func (x *Exec) wfAstFieldPlain(st *State, key, ref string, val Term) {
 			tok := x.readField(st, "ast.AssignStmt.Tok", "Int", "(iref "+val.S+")")
 			st.assume(sNot(sAnd(sEq("(itag "+val.S+")", "K_AssignStmt"), sEq(tok.S, "TDEFINE"))))
 		}
-	case "ast.ForStmt.Cond", "ast.SwitchStmt.Tag", "ast.IfStmt.Cond":
+	case "ast.ForStmt.Cond", "ast.SwitchStmt.Tag", "ast.IfStmt.Cond", "ast.RangeStmt.Key", "ast.RangeStmt.Value":
 		st.assume(sOr(sEq(val.S, "nilIface"), sNot(sEq("(iref "+val.S+")", "nilRef"))))
 	case "ast.ExprStmt.X":
 		st.assume(sAnd(sNot(sEq("(itag "+val.S+")", "0")), sNot(sEq("(iref "+val.S+")", "nilRef"))))
